@@ -130,6 +130,10 @@ def ops(nrows_hint):
         b = cf.bigarray
         extra = []
         if len(b) != len(cf.titles): extra.append("bigarray has %d rows for %d titles" % (len(b), len(cf.titles)))
+        else:
+            for i, t in enumerate(cf.titles):
+                if len(b[i]) != sh.nrows: extra.append("bigarray row %s has %d entries, the columnfile has %d rows" % (t, len(b[i]), sh.nrows)); break
+                if any(not same(b[i][r], sh.cols[i][r]) for r in range(sh.nrows)): extra.append("bigarray row %s does not hold the current column" % t); break
         return cf, sh, extra
     def op_set_bigarray(cf, sh):
         if not cf.titles: return None
